@@ -85,12 +85,12 @@ for op in "+-*/%":
       rows=mixsv, oracle=[r"^operator%s/(int32x\d,uint8|float.*,(int32|double)|int32.*,double|uint8.*,int32|int16.*,int(8|32)|int8.*,float)" % x])
     a = o + "_assign"
     afl = "" if op == "%" else "fd"
-    C("operator%s= : vec_t<T, 2> &(vec_t<T, 2> &, const vec_t<U, 2> &)  template<typename T, typename U>" % op, rows=[r"^op_%s__v2[%si]_v2" % (a, afl)], oracle=[r"^operator%s=/\w+x2,\w+x2$" % x])
-    C("operator%s= : vec_t<T, 3, A> &(vec_t<T, 3, A> &, const vec_t<U, 3, B> &)  template<typename T, typename U, bool A, bool B>" % op, rows=[r"^op_%s__v3a?[%si]_v3" % (a, afl)], oracle=[r"^operator%s=/\w+x3a?,\w+x3a?$" % x])
-    C("operator%s= : vec_t<T, 4> &(vec_t<T, 4> &, const vec_t<U, 4> &)  template<typename T, typename U>" % op, rows=[r"^op_%s__v4[%si]_v4" % (a, afl)], oracle=[r"^operator%s=/\w+x4,\w+x4$" % x])
-    C("operator%s= : vec_t<T, 2> &(vec_t<T, 2> &, const U &)  template<typename T, typename U, typename  = ...>" % op, rows=[r"^op_%s__v2[%si]_[a-z]+$" % (a, afl)], oracle=[r"^operator%s=/\w+x2,\w+x2$" % x])
-    C("operator%s= : vec_t<T, 3, A> &(vec_t<T, 3, A> &, const U &)  template<typename T, typename U, bool A, typename  = ...>" % op, rows=[r"^op_%s__v3a?[%si]_[a-z]+$" % (a, afl)], oracle=[r"^operator%s=/\w+x3a?,\w+x3a?$" % x])
-    C("operator%s= : vec_t<T, 4> &(vec_t<T, 4> &, const U &)  template<typename T, typename U, typename  = ...>" % op, rows=[r"^op_%s__v4[%si]_[a-z]+$" % (a, afl)], oracle=[r"^operator%s=/\w+x4,\w+x4$" % x])
+    C("operator%s= : vec_t<T, 2> &(vec_t<T, 2> &, const vec_t<U, 2> &)  template<typename T, typename U>" % op, rows=[r"^op_%s__v2[%si]_v2" % (a, afl)], oracle=[r"^operator%s=/\w+x2,\w+x2$" % x, r"^identity/operator%s=/\w+x2," % x])
+    C("operator%s= : vec_t<T, 3, A> &(vec_t<T, 3, A> &, const vec_t<U, 3, B> &)  template<typename T, typename U, bool A, bool B>" % op, rows=[r"^op_%s__v3a?[%si]_v3" % (a, afl)], oracle=[r"^operator%s=/\w+x3a?,\w+x3a?$" % x, r"^identity/operator%s=/\w+x3a?," % x])
+    C("operator%s= : vec_t<T, 4> &(vec_t<T, 4> &, const vec_t<U, 4> &)  template<typename T, typename U>" % op, rows=[r"^op_%s__v4[%si]_v4" % (a, afl)], oracle=[r"^operator%s=/\w+x4,\w+x4$" % x, r"^identity/operator%s=/\w+x4," % x])
+    C("operator%s= : vec_t<T, 2> &(vec_t<T, 2> &, const U &)  template<typename T, typename U, typename  = ...>" % op, rows=[r"^op_%s__v2[%si]_[a-z]+$" % (a, afl)], oracle=[r"^operator%s=/\w+x2,\w+x2$" % x, r"^identity/operator%s=/\w+x2," % x])
+    C("operator%s= : vec_t<T, 3, A> &(vec_t<T, 3, A> &, const U &)  template<typename T, typename U, bool A, typename  = ...>" % op, rows=[r"^op_%s__v3a?[%si]_[a-z]+$" % (a, afl)], oracle=[r"^operator%s=/\w+x3a?,\w+x3a?$" % x, r"^identity/operator%s=/\w+x3a?," % x])
+    C("operator%s= : vec_t<T, 4> &(vec_t<T, 4> &, const U &)  template<typename T, typename U, typename  = ...>" % op, rows=[r"^op_%s__v4[%si]_[a-z]+$" % (a, afl)], oracle=[r"^operator%s=/\w+x4,\w+x4$" % x, r"^identity/operator%s=/\w+x4," % x])
 
 # ---- madd, comparisons, anyLessThan, dot, length, cross, normalize, interpolate, streaming
 C("madd : vec_t<T, 3, A> (const vec_t<T, 3, A> &, const vec_t<T, 3, A> &, const vec_t<T, 3, A> &)" + TA, rows=[r"^madd__v3a?f_", r"^madd__v3a?d_"], oracle=["^madd/floatx3", "^madd/doublex3"])
